@@ -26,6 +26,19 @@ from pathlib import Path
 from src.core.types import Violation
 
 
+
+def _display(value: int | float) -> str:
+    """Text of a numeric value for messages.
+
+    CPython refuses to convert integers of more than 4300 digits to a decimal string
+    (ValueError); such a literal is shown in hexadecimal, which has no such limit.
+    """
+    try:
+        return str(value)
+    except ValueError:
+        return hex(value) if isinstance(value, int) else repr(value)
+
+
 class ViolationBuilder:
     """Builds violations for magic number detections."""
 
@@ -55,9 +68,10 @@ class ViolationBuilder:
         Returns:
             Violation object with details about the magic number
         """
-        message = f"Magic number {value} should be a named constant"
+        shown = _display(value)
+        message = f"Magic number {shown} should be a named constant"
 
-        suggestion = f"Extract {value} to a named constant (e.g., CONSTANT_NAME = {value})"
+        suggestion = f"Extract {shown} to a named constant (e.g., CONSTANT_NAME = {shown})"
 
         return Violation(
             rule_id=self.rule_id,
@@ -84,10 +98,11 @@ class ViolationBuilder:
         Returns:
             Violation object with details about the magic number
         """
-        message = f"Magic number {value} should be a named constant"
+        shown = _display(value)
+        message = f"Magic number {shown} should be a named constant"
 
         suggestion = (
-            f"Extract {value} to a named constant (e.g., const CONSTANT_NAME: i32 = {value})"
+            f"Extract {shown} to a named constant (e.g., const CONSTANT_NAME: i32 = {shown})"
         )
 
         return Violation(
@@ -115,9 +130,10 @@ class ViolationBuilder:
         Returns:
             Violation object with details about the magic number
         """
-        message = f"Magic number {value} should be a named constant"
+        shown = _display(value)
+        message = f"Magic number {shown} should be a named constant"
 
-        suggestion = f"Extract {value} to a named constant (e.g., const CONSTANT_NAME = {value})"
+        suggestion = f"Extract {shown} to a named constant (e.g., const CONSTANT_NAME = {shown})"
 
         return Violation(
             rule_id=self.rule_id,
